@@ -1,20 +1,159 @@
-"""Contracts for loky/backend/utils.py (kill trees, exit codes)."""
+"""Contracts for loky/backend/utils.py (kill trees, exit codes; C02, C06)."""
 import z3
 from pyvc.spec import SCHEMA as S, Module
 from pyvc import types as T
-from pyvc.values import VBool, NONE
+from pyvc.values import VBool, NONE, VModule, VInt, VStr
+from specs.externals import _impl
 
 M = Module("loky.backend.utils")
+UT = "loky.backend.utils"
+M.glob("psutil", T.Union(T.NoneT, VModule("psutil")), doc="the psutil module, or None when it cannot be imported (configuration)")
+
+S.ghost("ps_killed", z3.ArraySort(T.IntS, T.BoolS), "psutil process handles on which kill() was called")
+S.cls("psutil.Process", {"pid": T.Int}, external=True)
+
+# psutil handle of a pid: NoSuchProcess means the pid is gone, i.e. that child has been reaped already
+c = S.contracts["psutil.Process"]
+c.spec_module = "loky.backend.utils"
+c.params[:] = [("pid", T.Opt(T.Int), True, NONE)]
+c.ensures("handle-of-pid", "implies(not is_none(pid), result.pid == the(pid))")
+c.ensures("no-effect-when-found", "G.killed == old(G.killed) and G.joined == old(G.joined)")
+c.exsures_.append(("gone", "psutil.NoSuchProcess", "not is_none(pid) and the(pid) != os.getpid()",
+                   "G.killed[the(pid)] and G.joined[G.proc_of_pid[the(pid)]] and forall(Int, lambda k: implies(old(G.killed[k]), G.killed[k])) and "
+                   "forall(Ref('Process'), lambda q: implies(old(G.joined[q]), G.joined[q]))", None))
+c.modifies_ = ["G.killed", "G.joined"]
+c = S.ext("psutil.Process.children", cite="psutil.Process.children(recursive=True): all descendants, parents before children")
+c.param("self", T.Ref("psutil.Process")).param("recursive", T.Bool, default=VBool(False)).returns(T.Seq(T.Ref("psutil.Process"))).modifies("G.killed", "G.joined")
+c.ensures("no-effect-when-found", "G.killed == old(G.killed) and G.joined == old(G.joined)")
+c.exsures_.append(("gone", "psutil.NoSuchProcess", None,
+                   "G.killed[self.pid] and G.joined[G.proc_of_pid[self.pid]] and forall(Int, lambda k: implies(old(G.killed[k]), G.killed[k])) and "
+                   "forall(Ref('Process'), lambda q: implies(old(G.joined[q]), G.joined[q]))", None))
+c.spec_module = "loky.backend.utils"
+
+
+@_impl("psutil.Process.kill", cite="psutil.Process.kill(): SIGKILL; NoSuchProcess when already gone")
+def _ps_kill(eng, st, self_v, args, kwargs, node):
+    out = []
+    s = st.clone()
+    pid, _ = s.read_field(self_v, "pid")
+    s.ghost_set("ps_killed", z3.Store(s.ghost_get("ps_killed"), self_v.t, z3.BoolVal(True)))
+    s.ghost_set("killed", z3.Store(s.ghost_get("killed"), pid.t, z3.BoolVal(True)))
+    s.emit("ps_kill_gone", [self_v], eng.site(node))
+    out.append(eng.raise_new(s, "psutil.NoSuchProcess"))
+    pid, _ = st.read_field(self_v, "pid")
+    st.ghost_set("ps_killed", z3.Store(st.ghost_get("ps_killed"), self_v.t, z3.BoolVal(True)))
+    st.ghost_set("killed", z3.Store(st.ghost_get("killed"), pid.t, z3.BoolVal(True)))
+    st.emit("ps_kill", [self_v], eng.site(node))
+    out.append(eng.val(st, NONE))
+    return out
+
+
+c = S.ext("os.kill", cite="os.kill(pid, sig): OSError(ESRCH) when the process does not exist")
+c.param("pid", T.Int).param("sig", T.Obj).event("os_kill", "pid", "sig").modifies("G.killed")
+c.ensures("marks", "G.killed[pid] and forall(Int, lambda q: implies(q != pid, G.killed[q] == old(G.killed[q])))")
+c.raises("may-fail", "OSError", post="G.killed[pid] and forall(Int, lambda q: implies(q != pid, G.killed[q] == old(G.killed[q])))")
+c.trusted = True
+S.ext_consts["signal.SIGKILL"] = __import__("pyvc.values", fromlist=["VConst"]).VConst("signal.SIGKILL")
+S.ext_consts["signal.SIGTERM"] = __import__("pyvc.values", fromlist=["VConst"]).VConst("signal.SIGTERM")
+S.ext_consts["errno.ESRCH"] = VInt(3)
+S.ext_consts["errno.EPIPE"] = VInt(32)
+c = S.ext("subprocess.check_output", cite="subprocess.check_output(cmd, ...): stdout text, CalledProcessError on non-zero exit, OSError when the tool is missing")
+c.param("cmd", T.Obj).kwargs("kw").returns(T.Str).modifies()
+c.may_raise.append(("Exception", None))
+
+KILLED_REAPED = "G.killed[process.pid] and G.joined[process]"
+OTHERS = "forall(Ref('Process'), lambda q: implies(old(G.joined[q]), G.joined[q])) and forall(Int, lambda k: implies(old(G.killed[k]), G.killed[k]))"
 
 c = M.contract("kill_process_tree", props=["C02", "C06"])
 c.param("process", T.Ref("Process")).param("use_psutil", T.Bool, default=VBool(True))
-c.ensures("kill/marks-killed", "G.killed[process] and G.joined[process]")
-c.ensures("kill/others-untouched", "forall(Ref('Process'), lambda q: implies(q is not process, G.killed[q] == old(G.killed[q]) and G.joined[q] == old(G.joined[q])))")
-c.raises("kill/lookup-error-tolerated", "ProcessLookupError",
-         post="G.killed[process] and G.joined[process] and forall(Ref('Process'), lambda q: implies(q is not process, G.killed[q] == old(G.killed[q]) and G.joined[q] == old(G.joined[q])))")
-c.modifies("G.killed", "G.joined")
-c.note("ProcessLookupError means the pid no longer exists (already reaped): counted as killed-and-reaped")
+c.touch("psutil")
+c.ensures("kill/root-killed-and-reaped", KILLED_REAPED)
+c.ensures("kill/monotone", OTHERS)
+c.ensures("kill/psutil-branch-iff-available",
+          "ite(use_psutil and psutil is not None, log_count('call:_kill_process_tree_with_psutil') == 1 and log_count('call:_kill_process_tree_without_psutil') == 0, "
+          "log_count('call:_kill_process_tree_with_psutil') == 0 and log_count('call:_kill_process_tree_without_psutil') == 1)", prop="C06")
+c.raises("kill/lookup-error-tolerated", "ProcessLookupError", post="G.killed[process.pid] and G.joined[process] and " + OTHERS)
+c.raises_only("kill/only-lookup-error")
+c.modifies("G.killed", "G.joined", "G.ps_killed", "G.killed", "G.pid_live")
+
+c = M.contract("_kill_process_tree_with_psutil", props=["C02", "C06"])
+c.param("process", T.Ref("Process"))
+c.touch("psutil")
+c.requires("psutil-available", "psutil is not None")
+c.rely("pid-names-this-child", "G.proc_of_pid[process.pid] is process", "A-pids")
+c.ensures("kill-tree/root-killed-and-reaped", KILLED_REAPED)
+c.ensures("kill-tree/monotone", OTHERS)
+c.ensures("kill-tree/descendants-before-root",
+          "implies(has_loop(), tail(log_count('join') == 1 and log_arg('join', 0, 0) is process))")
+c.raises_only("kill-tree/no-exception")
+c.modifies("G.killed", "G.joined", "G.ps_killed", "G.pid_live")
+c.assumes("A-kernel")
+i = M.invariant("_kill_process_tree_with_psutil", 0, "for descendant in descendants[::-1]:")
+i.inv("kills-only-grow", "forall(Int, lambda k: implies(old(G.killed[k]), G.killed[k]))")
+i.inv("reaped-only-grow", "forall(Ref('Process'), lambda q: implies(old(G.joined[q]), G.joined[q]))")
+i.iter_post("every-listed-descendant-gets-a-kill", "log_count('ps_kill') + log_count('ps_kill_gone') == 1")
+c.note("the early return on NoSuchProcess at listing means the pid is already reaped (trusted); order among descendants is abstracted")
+
+c = M.contract("_kill_process_tree_without_psutil", props=["C02", "C06"])
+c.param("process", T.Ref("Process"))
+c.ensures("kill-tree/root-killed-and-reaped", KILLED_REAPED)
+c.ensures("kill-tree/monotone", OTHERS)
+c.ensures("kill-tree/joined-last", "log_tags()[-1] == 'join' and log_arg('join', -1, 0) is process")
+c.ensures("kill-tree/fallback-kills-the-root-when-introspection-fails",
+          "implies(log_count('raise:_posix_recursive_kill') == 1, log_count('proc_kill') == 1 and log_count('warn') == 1)")
+c.raises_only("kill-tree/no-exception")
+c.modifies("G.killed", "G.joined", "G.killed", "G.pid_live")
+
+c = M.contract("_posix_recursive_kill", props=["C02", "C06"])
+c.param("pid", T.Int)
+c.ensures("recursive-kill/root-signalled", "G.killed[pid] and forall(Int, lambda k: implies(old(G.killed[k]), G.killed[k]))")
+c.ensures("recursive-kill/root-signalled-last", "tail(log_tags()[-1] == 'call:_kill' and log_arg('call:_kill', -1, 1) == pid)")
+c.raises("recursive-kill/errors-propagate", "Exception", post="forall(Int, lambda k: implies(old(G.killed[k]), G.killed[k]))")
+c.modifies("G.killed")
+i = M.invariant("_posix_recursive_kill", 0, "for cpid in children_pids.splitlines():")
+i.inv("kills-only-grow", "forall(Int, lambda k: implies(old(G.killed[k]), G.killed[k]))")
+
+c = M.contract("_kill", props=["C02", "C06"])
+c.param("pid", T.Int)
+c.ensures("kill/signals-the-pid", "G.killed[pid] and forall(Int, lambda k: implies(old(G.killed[k]), G.killed[k]))")
+c.ensures("kill/one-signal", "log_count('os_kill') == 1 and log_arg('os_kill', 0, 0) == pid")
+c.raises("kill/only-unexpected-oserror", "OSError", post="forall(Int, lambda k: implies(old(G.killed[k]), G.killed[k]))")
+c.raises_only("kill/only-oserror")
+c.modifies("G.killed")
 
 c = M.contract("get_exitcodes_terminated_worker", props=["C02"])
 c.param("processes", T.Map(T.Int, T.Ref("Process")))
-c.returns(T.Str).modifies()
+c.returns(T.Str)
+c.ensures("exitcodes/formatted-once", "log_count('call:_format_exitcodes') == 1 and result == log_arg('call:_format_exitcodes', 0, 0)")
+c.raises_only("exitcodes/no-exception")
+c.modifies()
+i = M.invariant("get_exitcodes_terminated_worker", 0, "while not exitcodes and patience > 0:")
+i.inv("patience-bounded", "patience >= 0 and patience <= 5")
+i.variant("patience")
+
+c = M.contract("_format_exitcodes", props=["C02"])
+c.param("exitcodes", T.Obj)
+c.returns(T.Str)
+c.modifies()
+c.trusted_summary = True
+
+c = M.contract("_get_exitcode_name", props=["C02"])
+c.param("exitcode", T.Int)
+c.returns(T.Str)
+c.ensures("exitcodes/exit-for-nonnegative-non-255", "implies(exitcode >= 0 and exitcode != 255, result == 'EXIT')")
+c.ensures("exitcodes/unknown-for-255", "implies(exitcode == 255, result == 'UNKNOWN')")
+c.ensures("exitcodes/signal-name-or-unknown-for-negative", "implies(exitcode < 0, log_count('signal_name') == 1 and log_arg('signal_name', 0, 0) == -exitcode)")
+c.raises_only("exitcodes/no-exception")
+c.modifies()
+
+
+@_impl("signal.Signals", cite="signal.Signals(n): the enum member (its .name), ValueError for an unknown number")
+def _signals(eng, st, self_v, args, kwargs, node):
+    from pyvc.values import VObj, fresh_const
+    out = []
+    s = st.clone()
+    s.emit("signal_name", [args[0]], eng.site(node))
+    out.append(eng.raise_new(s, "ValueError"))
+    st.emit("signal_name", [args[0]], eng.site(node))
+    out.append(eng.val(st, VObj(fresh_const("sig", T.IntS))))
+    return out
